@@ -56,12 +56,20 @@ where
     ) -> Result<ChangeData<T>> {
         let prev_stamp = c.read_stamp()?;
         let prev_stored_len = c.read_u64()?;
-        c.skip(SIZE_OF_U64)?; // stored_len, not needed for rollback
+        let stored_len = c.read_u64()?;
         let truncated_count = c.read_u64()?;
 
         let truncated_start = prev_stored_len
             .checked_sub(truncated_count)
             .ok_or(Error::Underflow)?;
+        // The three lengths describe one truncation: a record in which they
+        // contradict each other is damaged and must not be applied.
+        if truncated_count != prev_stored_len.saturating_sub(stored_len) {
+            return Err(Error::WrongLength {
+                received: truncated_count,
+                expected: prev_stored_len.saturating_sub(stored_len),
+            });
+        }
         let truncated_values = c.read_values(truncated_count, size_of_t, &read_value)?;
 
         let prev_pushed_len = c.read_u64()?;
